@@ -195,6 +195,10 @@ def main():
 
     profiles = ("dev", "release") if (tier == "thorough" or getattr(prop, "NEEDS_RELEASE", False)) else ("dev",)
     ok, msg = build.build(profiles)
+    # data generated by the build from the current source (e.g. the protocol numbering sigs.py reads) may have changed
+    import sigs
+    importlib.reload(sigs)
+    prop = importlib.reload(prop)
     drivers = [("dev", DRIVER_DEV)] + ([("release", DRIVER_REL)] if "release" in profiles else [])
     known = [k for k in load_known() if k.get("property") == pid]
 
